@@ -403,6 +403,7 @@ package generator
 //@   shape t = new
 //@   shape t.Properties = propmap(name)
 //@   shape prop.Default = nil | anystring
+//@   shape t.Default = nil | objdefault(name)
 //@   shape prop.GoJSONSchemaExtension = nil | new
 //@   shape prop.AdditionalProperties = nil | new
 //@   shape prop.AdditionalProperties.Type = strs() | strs(string) | strs(object)
@@ -852,9 +853,9 @@ package generator
 //@   option both-map-orders
 //@   option noframe
 //@   option inline (*Generator).beginOutput
-//@   shape g = gen(s1=a.go:p1) | gen(s1=a.go:p1;map:s2=p2,b.go,) | gen(map:s2=p2,b.go,;map:s3=p3,c.go,) | gen() | gen(map:s2#=p4,d.go,;map:s2=p2,b.go,) | gen(map:s2=p2,b.go,;map:s2#=p4,d.go,)
+//@   shape g = gen(s1=a.go:p1) | gen(s1=a.go:p1;map:s2=p2,b.go,) | gen(map:s2=p2,b.go,;map:s3=p3,c.go,) | gen() | gen(map:s2#=p4,d.go,;map:s2=p2,b.go,) | gen(map:s2=p2,b.go,;map:s2#=p4,d.go,) | gen(map:s*=p4,d.go,;map:s2=p2,b.go,) | gen(map:s2=p2,b.go,;map:s*=p4,d.go,) | gen(map:S2=p4,d.go,;map:s2=p2,b.go,) | gen(map:s2=p2,b.go,;map:s=p4,d.go,)
 //@   shape id = "s1" | "s2" | "s9"
-//@   ensures [C20,C12] ids-match-exactly: id == "s2" && len(g.config.SchemaMappings) == 2 && (g.config.SchemaMappings[0].SchemaID == "s2#" || g.config.SchemaMappings[1].SchemaID == "s2#") && result1 == nil ==> out_file(result0) == "b.go" && out_pkg(result0) == "p2"
+//@   ensures [C20,C12] ids-match-exactly: id == "s2" && len(g.config.SchemaMappings) == 2 && (g.config.SchemaMappings[0].SchemaID == "s2") != (g.config.SchemaMappings[1].SchemaID == "s2") && result1 == nil ==> out_file(result0) == "b.go" && out_pkg(result0) == "p2"
 //@   ensures [C20] known-id-keeps-its-output: old(map_has(g.outputs, "s1")) && id == "s1" ==> result1 == nil && result0 == old(g.outputs["s1"])
 //@   ensures [C20] mapped-id-goes-to-its-mapping: id == "s2" && len(g.config.SchemaMappings) >= 1 && g.config.SchemaMappings[len(g.config.SchemaMappings) - 1].SchemaID == "s2" && result1 == nil ==> out_file(result0) == "b.go" && out_pkg(result0) == "p2"
 //@   ensures [C20] unmapped-id-goes-to-the-defaults: id == "s9" && result1 == nil ==> out_file(result0) == "default.go" && out_pkg(result0) == "defpkg"
@@ -874,12 +875,13 @@ package generator
 //@   shape t = new
 //@   shape t.Format = "" | "int32" | "int64"
 //@   shape t.Type = strs() | strs(string) | strs(integer) | strs(number) | strs(boolean) | strs(string,null) | strs(null,string)
-//@   shape t.Enum = emptyslice() | enumvals(string) | enumvals(string,string) | enumvals(float64,float64) | enumvals(bool,bool) | enumvals(string,float64) | enumvals(nil,string) | enumvals(object)
+//@   shape t.Enum = emptyslice() | enumvals(string) | enumvals(string,string) | enumvals(string,nil,string) | enumvals(float64,float64) | enumvals(bool,bool) | enumvals(string,float64) | enumvals(nil,string) | enumvals(object)
 //@   assigns nothing
 //@   ensures [C08,C18] empty-list-fails: len(t.Enum) == 0 ==> result1 != nil
 //@   ensures [C08,C15] integer-values-are-ints-whatever-the-format: result1 == nil && len(t.Type) == 1 && t.Type[0] == "integer" ==> enum_carrier(result0.Decl.Type) == "int"
 //@   ensures [C08,C15,C02,C03] values-have-the-carrier-type: result1 == nil && old(enum_consistent(t.Type, t.Enum)) ==> values_have_type(t.Enum, enum_carrier(result0.Decl.Type))
 //@   ensures [C08] constants-for-string-values: result1 == nil && old(enum_consistent(t.Type, t.Enum)) && enum_carrier(result0.Decl.Type) == "string" ==> count_decls(g.output.file.Package.Decls, "*codegen.Constant") >= 1 && (len(t.Enum) == 1 ==> count_decls(g.output.file.Package.Decls, "*codegen.Constant") == 1)
+//@   ensures [C08] one-constant-per-listed-string: result1 == nil && enum_carrier(result0.Decl.Type) == "string" && old(count_values(t.Enum, "string")) == 2 && t.Enum[0] != last(t.Enum) ==> count_decls(g.output.file.Package.Decls, "*codegen.Constant") == 2
 //@   ensures [C08] no-constants-otherwise: result1 == nil && enum_carrier(result0.Decl.Type) != "string" ==> count_decls(g.output.file.Package.Decls, "*codegen.Constant") == 0
 //@   ensures [C08,C16,C02] untyped-carrier-is-always-wrapped: result1 == nil ==> !(dyn(result0.Decl.Type) == "codegen.PrimitiveType" && result0.Decl.Type.Type == "interface{}")
 //@   ensures [C08,C16] only-models-adds-no-code: result1 == nil && g.config.OnlyModels ==> count_decls(g.output.file.Package.Decls, "*codegen.Var") == 0 && count_decls(g.output.file.Package.Decls, "*codegen.Method") == 0 && len(g.output.file.Package.Imports) == 0
